@@ -72,6 +72,8 @@ def run_arith(case, ctx):
         for form, call, xs, ys in forms:
             if form == "rscalar" and name == "mul" and fam == "strint":
                 continue
+            if form == "rscalar" and fam == "strfmt":
+                continue          # "text" % vector is str formatting of the whole vector (str.__mod__ never defers)
             try:
                 c05._ref(op, xs, ys)
             except Exception:  # noqa: BLE001
